@@ -76,14 +76,34 @@ def _all_terms(s):
         yield from e.pc
 
 
-def _is_window_slice(t) -> bool:
-    """slice(self._from_idx + start, self._from_idx + (self._n_rows if stop is None else stop))"""
-    if not is_call(t, "slice", 2) or t[1] != ("global", "slice"):
-        return False
-    lo, hi = t[2]
-    start, stop = ("param", "start"), ("param", "stop")
-    stop_or_all = ("ite", ("cmp", "is", stop, NONE), NROWS, stop)
-    return _plus(FROM, start)(lo) and (_plus(FROM, stop_or_all)(hi))
+class _Window:
+    """The row window of a wrapper in terms of what it was constructed with (fields resolved through the constructor,
+    sa.terms.field_resolver): first row = the from_idx argument, number of rows = the n_rows property resolved, end =
+    `to_idx, or the total number of rows when it is None`."""
+
+    def __init__(self, chk, base):
+        from ..terms import field_resolver
+        self.resolve = field_resolver(chk.terms, base, skip=("_data_source", "_mapping", "_dtype"))
+        self.frm = ("param", "from_idx")
+        self.n_rows = self.resolve(A(SELF, "n_rows"))
+        to = ("param", "to_idx")
+        b = match(("bin", "-", ("ite", ("cmp", "is", to, NONE), Wild("total"), to), self.frm), self.n_rows)
+        self.total = b["total"] if b else None
+        self.to = ("ite", ("cmp", "is", to, NONE), self.total, to) if b else None
+
+    def is_window_slice(self, t, props_of=None) -> bool:
+        """slice(from_idx + start, from_idx + (n_rows if stop is None else stop))"""
+        t = self.resolve(t, props_of=props_of)
+        if not is_call(t, "slice", 2) or t[1] != ("global", "slice"):
+            return False
+        lo, hi = t[2]
+        start, stop = ("param", "start"), ("param", "stop")
+        stop_or_all = ("ite", ("cmp", "is", stop, NONE), self.n_rows, stop)
+        return _plus(self.frm, start)(lo) and (_plus(self.frm, stop_or_all)(hi))
+
+    def is_whole_window(self, t, props_of=None) -> bool:
+        """[from_idx : to_idx or total]"""
+        return self.to is not None and self.resolve(t, props_of=props_of) == ("slice", self.frm, self.to, NONE)
 
 
 def r11_1_window(chk):
@@ -91,9 +111,13 @@ def r11_1_window(chk):
     base = ix.get_class("SourceDataWrapper")
     impls = [c.methods["load_chunk"] for c in [base] + ix.subclasses(base) if "load_chunk" in c.methods]
     chk.floor("load_chunk implementations", len(impls), 2)
+    win_ = _Window(chk, base)
+    _is_window_slice = win_.is_window_slice
     n_row_reads = 0
     for f in impls:
-        s = chk.summary(f)
+        # (the bounds helper is looked through; delegation to the base implementation is not)
+        s = te.inline(f, 2, stop=lambda g: g.cls is None or g.name in ("load_chunk", "__init__") or
+                      not (g.cls is base or base in g.cls.mro()))
         seen = set()
         reads = 0
         for t in _all_terms(s):
@@ -106,8 +130,8 @@ def r11_1_window(chk):
                         contains(idx, A(SELF, "_mapping")):
                     continue  # selects a data set (by a key of the mapping), not rows
                 reads += 1
-                full = te.expand_calls(idx, s, depth=2)
-                ok = _is_window_slice(full)
+                full = win_.resolve(idx, props_of=s.props)
+                ok = _is_window_slice(idx, s.props)
                 chk.require(ok, "R11.1", f"rows-addressed-through-window:{f.short}:{pp(x[1])[:40]}",
                             f"{f.short} addresses source rows with `{pp(full)[:160]}`, which is not "
                             f"slice(from_idx + start, from_idx + stop): the row window is ignored or misapplied on "
@@ -118,7 +142,7 @@ def r11_1_window(chk):
         from ..terms import return_alternatives
         for conds, alt in return_alternatives(s):
             fresh = is_call(alt, ("zeros", "empty"))
-            windowed = alt[0] == "sub" and alt[1] == DS and _is_window_slice(te.expand_calls(alt[2], s, depth=2))
+            windowed = alt[0] == "sub" and alt[1] == DS and _is_window_slice(alt[2], s.props)
             deleg = is_call(alt, "load_chunk") and alt[1][0] == "attr" and is_call(alt[1][1], "super")
             chk.require(fresh or windowed or deleg, "R11.1", f"chunk-is-fresh-or-windowed-source-rows:{f.short}",
                         f"{f.short} can return `{pp(alt)[:80]}`: rows that are not the source addressed with "
@@ -135,21 +159,19 @@ def r11_1_window(chk):
         o.rule = "R11.1"
         chk.obs.append(o)
     gi = chk.summary(base.lookup("__getitem__"))
-    win = ("slice", FROM, TO, NONE)
     rets = [t for _, t, _ in gi.returns]
-    chk.require(bool(rets) and all(t[0] == "sub" and t[2] == win for t in rets), "R11.1", "getitem-windowed",
+    chk.require(bool(rets) and all(t[0] == "sub" and win_.is_whole_window(t[2], gi.props) for t in rets), "R11.1",
+                "getitem-windowed",
                 "SourceDataWrapper.__getitem__ does not apply the row window [from_idx:to_idx] to what it returns",
                 gi.func.where)
     init = chk.summary(base.lookup("__init__"))
     frm, to = ("param", "from_idx"), ("param", "to_idx")
-    n_st = init.stores("_n_rows")
-    val = init.forward_fields(n_st[0].value) if len(n_st) == 1 else None
-    b = match(("bin", "-", ("ite", ("cmp", "is", to, NONE), Wild("total"), to), frm), val) if val else None
-    chk.require(b is not None and contains(b["total"], lambda y: y[0] == "attr" and y[2] == "shape"), "R11.1",
+    val = win_.n_rows
+    chk.require(win_.total is not None and contains(win_.total, lambda y: y[0] == "attr" and y[2] == "shape"), "R11.1",
                 "n_rows=to-from", f"the number of rows is `{pp(val) if val else '?'}`, not (to_idx, or the total number "
                 f"of rows when it is None) - from_idx", init.func.where)
-    total = b["total"] if b else ANY
-    lits = [int_norm(init.forward_fields(c)) for pc, _, _ in init.raises for c in pc]
+    total = win_.total if win_.total is not None else ANY
+    lits = [int_norm(win_.resolve(c, props_of=init.props)) for pc, _, _ in init.raises for c in pc]
     start_checked = any(l[0] == "cmp" and l[1] in (">=", ">") and l[2] == frm and l[3] == total for l in lits)
     empty_checked = any(l[0] == "cmp" and l[1] == "<=" and l[3] == K(0) and l[2] == val for l in lits) if val else False
     chk.require(start_checked and empty_checked, "R11.1", "window-validated",
